@@ -250,6 +250,22 @@ CLAIMED = {
         note="Trusted: TLC, the renderer/projection shared with C02, cssutils' tokenizer for the token clause (C05). lineNumbers excluded. "
              "Validity is taken from a small table for the generated declarations. Two known findings (named deviations in the contract), "
              "three defects fixed in /repo."),
+    "C19": dict(
+        technique="TLA+ contract over a virtual file system (ImportsContract: RFC 3986 reference resolution, Meaning = rules in cascade "
+                  "order with media stacks and absolute URLs after virtual expansion of available @imports, wrappability, URL "
+                  "enumeration, fetch bags; reference flattening SpecFlat with three NAMED deviations); import-tree machine explored "
+                  "and simulated by TLC with design checks (SpecFlat meets the contract, RelTo inverts Resolve); adapter runs getUrls / "
+                  "replaceUrls / resolveImports / csscombine on the generated worlds; TLC trace monitor judges",
+        text="Bounded exhaustive over import trees: every state of the edge-adding machine with <=2 @import edges over 10 files in "
+             "parent / sibling / child / grand-child directories, root-relative, on a second host, missing x 6 reference forms x media "
+             "on the edge (8.5k worlds; a slice per quick run, all in the thorough tier) plus TLC-simulated trees up to 6 edges / depth 4; "
+             "bodies carry url() of every form (query, fragment, dot segments, percent escapes) in style, @media, @font-face, "
+             "@page+margin. TLC checks Meaning(flat, read from the root's location) = Meaning(original), no @import inside @media, "
+             "every flattenable @import flattened, fetch bag, nothing fetched again, URL enumeration order and exactly-once "
+             "replacement, identity replacer no-op; csscombine (minified/normal, 4 target encodings) on real files.",
+        design_ref="DESIGN.md section 5 C19",
+        note="Trusted: TLC, urlsplit for splitting URL strings, the renderer of worlds to CSS text. Cycles are C01's. Only style rules "
+             "count as wrappable. Three known findings (named deviations), five defects fixed in /repo."),
 }
 PENDING = "check not built yet in this round (see DESIGN.md section 10 build order); no claim is made"
 NOT_APPLICABLE = {}
